@@ -39,6 +39,8 @@ def gen_stream(tier, seed, known):
     # pool-capacity and oversize boundaries (generated big words)
     big = [("G", 900000, 1), ("G", 60000, 2), ("G", 60000, 3), ("G", 65536, 4), ("G", 65537, 5),
            ("G", 30000, 6), ("G", 30000, 6), ("G", 70000, 7), ("G", 5000, 8), ("G", 65535, 9)]
+    # words around the size from which a word gets a pool of its own (1 MiB minus the length prefix)
+    big += [("G", 1048567, 30), ("G", 1048568, 31), ("G", 1048569, 32), ("G", 1048572, 33), ("G", 1048576, 34), ("G", 1048577, 35), ("G", 40, 36)]
     if tier != "quick":
         big += [("G", 1048560, 10), ("G", 1048576 - 24, 11), ("G", 1048576 + 24, 12), ("G", 3 * 1048576, 13),
                 ("G", 1048000, 14), ("G", 600, 15), ("G", 3 * 1048576, 13)] + [("G", 50000 + i, 20 + i) for i in range(40)]
